@@ -577,13 +577,31 @@ void uninitialized_fill_aux(It first, It last, P const& p, std::true_type)
     }
 }
 
+/// std::uninitialized_fill for iterators over pixels that are objects in memory
+template <typename It, typename P>
+BOOST_FORCEINLINE
+void uninitialized_fill_interleaved(It first, It last, P const& p, std::true_type)
+{
+    std::uninitialized_fill(first,last,p);
+}
+
+/// Iterators whose reference is a proxy (bit-aligned pixels) address bits, not objects:
+/// there is nothing to construct in place, the value is assigned through the proxy
+template <typename It, typename P>
+BOOST_FORCEINLINE
+void uninitialized_fill_interleaved(It first, It last, P const& p, std::false_type)
+{
+    std::fill(first,last,p);
+}
+
 /// std::uninitialized_fill for interleaved iterators
 /// If an exception is thrown destructs any in-place copy-constructed objects
 template <typename It, typename P>
 BOOST_FORCEINLINE
 void uninitialized_fill_aux(It first, It last, P const& p, std::false_type)
 {
-    std::uninitialized_fill(first,last,p);
+    uninitialized_fill_interleaved(first, last, p,
+        typename std::is_reference<typename std::iterator_traits<It>::reference>::type());
 }
 
 } // namespace detail
